@@ -345,7 +345,7 @@ impl Scanner {
         &self.chars[start..end]
     }
 
-    fn scan_rune(&mut self, start_at: usize) -> Result<Vec<char>> {
+    fn scan_rune(&mut self, start_at: usize, quote: char) -> Result<Vec<char>> {
         let mut chars = self.chars[start_at..].iter().copied();
         let (next1, next2) = (chars.next(), chars.next());
 
@@ -371,10 +371,13 @@ impl Scanner {
                 Some('u') => match_n(4, is_hex_digit)?,
                 Some('U') => match_n(8, is_hex_digit)?,
                 Some(ch) if is_octal_digit(ch) => match_n(2, is_octal_digit)?,
-                Some(ch) if is_escaped_char(ch) => return Ok(vec!['\\', ch]),
+                Some(ch) if is_escaped_char(ch) && (ch == quote || !matches!(ch, '\'' | '"')) => {
+                    return Ok(vec!['\\', ch])
+                }
                 Some(_) => return Err(self.error("unknown escape sequence")),
                 None => return Err(self.error("literal not terminated")),
             },
+            Some('\'') if quote == '\'' => return Err(self.error("empty rune literal")),
             Some(ch) if is_unicode_char(ch) => return Ok(vec![ch]),
             None => return Err(self.error_at(self.pos, "literal not terminated")),
             Some(_) => return Err(self.error_at(self.pos, "unexpected character")),
@@ -389,10 +392,12 @@ impl Scanner {
             // a valid rust char must be a valid go rune
             // hence we do not check char ranges
             // see comment for `is_unicode_char`
-            char::from_u32(
-                u32::from_str_radix(&String::from_iter(sequence), radix)
-                    .expect("here must be a valid u32"),
-            )
+            let value = u32::from_str_radix(&String::from_iter(sequence), radix)
+                .expect("here must be a valid u32");
+            // an octal escape denotes a byte
+            (radix != 8 || value <= 255)
+                .then_some(value)
+                .and_then(char::from_u32)
         })
         .ok_or_else(|| self.error("invalid Unicode code point"))?;
 
@@ -403,7 +408,7 @@ impl Scanner {
         let chars = &self.chars;
         assert_eq!(&chars[self.pos], &'\'');
 
-        let mut rune = self.scan_rune(self.pos + 1)?;
+        let mut rune = self.scan_rune(self.pos + 1, '\'')?;
         match self.chars.get(self.pos + 1 + rune.len()) {
             Some('\'') => {
                 let mut res = vec!['\''];
@@ -421,11 +426,13 @@ impl Scanner {
         let quote = self.chars[self.pos];
         result.push(quote);
 
+        let mut terminated = false;
         if quote == '`' {
             let chars = self.chars[self.pos + 1..].iter();
             for &ch in chars {
                 result.push(ch);
                 if ch == quote {
+                    terminated = true;
                     break;
                 }
             }
@@ -433,17 +440,17 @@ impl Scanner {
             let end = self.chars.len();
             let mut pos = self.pos + 1;
             while pos < end {
-                let mut rune = self.scan_rune(pos)?;
+                let mut rune = self.scan_rune(pos, quote)?;
                 pos += rune.len();
-                let quit = rune.len() == 1 && rune[0] == quote;
+                terminated = rune.len() == 1 && rune[0] == quote;
                 result.append(&mut rune);
-                if quit {
+                if terminated {
                     break;
                 }
             }
         }
 
-        if result.len() >= 2 && result.last() == Some(&quote) {
+        if terminated {
             return Ok(result);
         }
 
